@@ -18,6 +18,7 @@ package croncontroller
 
 import (
 	"fmt"
+	"sync/atomic"
 
 	"github.com/davecgh/go-spew/spew"
 	"k8s.io/client-go/tools/cache"
@@ -55,11 +56,22 @@ func (w *InformerWorker) WorkerName() string {
 func (w *InformerWorker) Init() {
 	// Add event handler when we get JobConfig updates.
 	w.jobconfigInformer.Informer().AddEventHandler(cache.ResourceEventHandlerFuncs{
+		AddFunc: w.handleAdd,
 		UpdateFunc: func(oldObj, newObj interface{}) {
 			w.handleUpdate(oldObj, newObj)
 		},
 		DeleteFunc: w.enqueueFlush,
 	})
+}
+
+// handleAdd schedules JobConfigs that are created while the controller is running.
+// JobConfigs that exist before the schedule is initialized are loaded (and caught
+// up) by CronWorker.Init instead.
+func (w *InformerWorker) handleAdd(obj interface{}) {
+	if atomic.LoadUint32(&w.scheduleInitialized) == 0 {
+		return
+	}
+	w.enqueueFlush(obj)
 }
 
 func (w *InformerWorker) handleUpdate(oldObj, newObj interface{}) {
